@@ -318,8 +318,10 @@ def modem_specs(max_order=None):
     out.append(modem("BPSK(real)", "BPSKModulator", "BPSKDemodulator", 1, {"complex_output": False}, {}, order=2))
     for nz in (True, False):
         out.append(modem(f"QPSK(normalize={nz})", "QPSKModulator", "QPSKDemodulator", 2, {"normalize": nz}, registry=("qpskmodulator", "qpskdemodulator") if nz else None, order=4))
-    for M in tier([4, 8, 16], [4, 8, 16, 32, 64]):
+    for M in [4, 8, 16, 32, 64]:
         for gray in (True, False):
+            if TIER == "quick" and M > 16 and not gray:
+                continue
             out.append(modem(f"PSK{M}(gray={gray})", "PSKModulator", "PSKDemodulator", M.bit_length() - 1, {"order": M, "gray_coding": gray}, order=M,
                              registry=("pskmodulator", "pskdemodulator") if (M == 8 and gray) else None))
     for M in tier([4, 16], [4, 16, 64]):
@@ -331,8 +333,10 @@ def modem_specs(max_order=None):
         m = modem("QAM256(gray=True,normalize=True)", "QAMModulator", "QAMDemodulator", 8, {"order": 256, "gray_coding": True, "normalize": True}, order=256)
         m["stretch"] = True
         out.append(m)
-    for M in tier([2, 4, 8], [2, 4, 8, 16, 32, 64]):
+    for M in [2, 4, 8, 16, 32, 64]:
         for gray in (True, False):
+            if TIER == "quick" and M > 8 and not gray:
+                continue
             for nz in ((True, False) if M <= 8 else (True,)):
                 out.append(modem(f"PAM{M}(gray={gray},normalize={nz})", "PAMModulator", "PAMDemodulator", M.bit_length() - 1,
                                  {"order": M, "gray_coding": gray, "normalize": nz}, order=M))
